@@ -719,6 +719,45 @@ def damage_field(r, g, shares, raws, gen):
     return "fields", desc
 
 
+def forge_share(payload_other, gen_ueb_bytes):
+    """A share of ANOTHER file (same parameters and length: every block, the block hash tree, the share hash
+    chain and the crypttext hash tree are consistent with each other) carrying THIS file's UEB: what an attacker
+    who cannot touch the capability can build at best."""
+    ver, fs, offs = parse_header(payload_other)
+    return payload_other[:offs["uri_extension"]] + struct.pack(">L" if fs == 4 else ">Q", len(gen_ueb_bytes)) + gen_ueb_bytes
+
+
+def place_share(g, cap, server, shnum, raw):
+    import os
+    from allmydata.storage.server import storage_index_to_dir
+    d = os.path.join(g.server(server).sharedir, storage_index_to_dir(g._si(cap)))
+    os.makedirs(d, exist_ok=True)
+    with open(os.path.join(d, "%d" % shnum), "wb") as f:
+        f.write(raw)
+
+
+def forged_setup(r, g, cap, data, size, k, n, nservers):
+    """Upload a second file of the same shape, forge its shares for `cap`, leave fewer than k good shares."""
+    other = bytes(r.getrandbits(8) for _ in range(size))
+    cap2 = g.run(g.upload(other, convergence=b"c02"))
+    shares = g.find_shares(cap)
+    raws = {(s.server, s.shnum): g.read_share(s) for s in shares}
+    head, pay, leases = split_container(next(iter(raws.values())))
+    hdr = parse_header(pay)
+    fs, offs = hdr[1], hdr[2]
+    (ulen,) = struct.unpack(">L" if fs == 4 else ">Q", pay[offs["uri_extension"]:offs["uri_extension"] + fs])
+    ueb = pay[offs["uri_extension"] + fs:offs["uri_extension"] + fs + ulen]
+    forged = {}
+    for s2 in g.find_shares(cap2):
+        h2, p2, l2 = split_container(g.read_share(s2))
+        forged[s2.shnum] = (h2, forge_share(p2, ueb), l2)
+    keep = r.sample(shares, r.randrange(0, k)) if k > 0 else []
+    for s in shares:
+        if s not in keep:
+            g.delete_share(s)
+    return forged, keep
+
+
 def changing_answers(r, nservers):
     """Fault plan: some read answers of some servers are altered, the others are not."""
     plan = []
@@ -747,7 +786,13 @@ def adversarial_case(ctx, i):
     nservers = r.choice([n, n, max(1, n // 2), n + 2])
     seed = r.getrandbits(30)
     scenario = r.choice(["flips", "flips", "fields", "fields", "truncate", "renumber", "other-file", "other-encoding", "changing-answers",
-                         "changing-answers", "mixed"])
+                         "changing-answers", "mixed", "forged-copies", "forged-copies", "forged-copies", "forged-answers"])
+    if scenario.startswith("forged"):
+        # many copies of the same internally consistent forgery need several servers; keep k small so that the
+        # copies (3 and more per share number) outnumber everything else
+        k = r.choice([1, 1, 1, 2, 2, 3])
+        n = r.choice([x for x in [k, k + 1, k + 2, 2 * k + 1] if k <= x <= 10])
+        nservers = r.choice([3, 4, 5, 6])
     case = {"i": i, "k": k, "n": n, "size": size, "max_segment_size": mss, "servers": nservers, "seed": seed, "scenario": scenario, "data": data.hex()}
     with G.Grid(num_servers=nservers, k=k, n=n, happy=1, max_segment_size=mss, seed=seed, timeout=30) as g:
         cap = g.run(g.upload(data, convergence=b"c02"))
@@ -799,6 +844,36 @@ def adversarial_case(ctx, i):
                     f.write(mine[(srv, shnum)])
             desc = ("other-encoding", {"k2": k2, "mss2": mss2, "first_encoding_shares": sorted(s for _, s in back), "same_cap": cap == ur2.get_uri()})
             case["second_cap_differs"] = cap != ur2.get_uri()
+        if scenario == "forged-copies":
+            forged, keep = forged_setup(r, g, cap, data, size, k, n, nservers)
+            # the same forged share under one, several or all share numbers, 3..all copies of each on different servers
+            style = r.choice(["own-numbers", "own-numbers", "one-share-everywhere", "k-numbers"])
+            numbers = list(range(n)) if style != "k-numbers" else r.sample(range(n), k)
+            copies = r.choice([3, 3, 4, nservers])
+            placed = []
+            for shnum in numbers:
+                src = forged[shnum] if style != "one-share-everywhere" else forged[min(forged)]
+                for srv in r.sample(range(nservers), min(copies, nservers)):
+                    if any(s.server == srv and s.shnum == shnum for s in keep):
+                        continue
+                    place_share(g, cap, srv, shnum, join_container(*src))
+                    placed.append((srv, shnum))
+            desc = ("forged-copies", {"style": style, "copies": copies, "numbers": numbers, "good_shares_left": sorted(s.shnum for s in keep)})
+        if scenario == "forged-answers":
+            forged, keep = forged_setup(r, g, cap, data, size, k, n, nservers)
+            # what is on disk is genuine (all shares restored), but servers answer reads with the forged share's bytes
+            for (srv, shnum), raw in raws.items():
+                place_share(g, cap, srv, shnum, raw)
+            plan = []
+            first_only = r.random() < 0.6      # every server answers the first read of a share with the whole forged share
+            for srv in range(nservers):
+                for shnum in range(n):
+                    if first_only or r.random() < 0.8:
+                        plan.append({"server": srv, "method": "read", "shnum": shnum, "nth": 0 if first_only else r.choice([0, 0, 0, 1]),
+                                     "count": 1 if first_only else r.choice([1, 2, 3, None]),
+                                     "action": "corrupt", "how": "value", "value": forged[shnum][1].hex()})
+            g.set_faults(plan)
+            desc = ("forged-answers", {"entries": len(plan), "first": plan[:2] and [dict(p, value=p["value"][:16] + "...") for p in plan[:2]]})
         if scenario in ("changing-answers", "mixed"):
             plan = changing_answers(r, nservers)
             g.set_faults(plan)
